@@ -412,11 +412,27 @@ def main(args):
         for fixed in range(16):
             jobs.append((4, (1, 2, 1, 1), False, qt, fixed))
     tjobs = [('near', qt), ('far', qt), ('chain-near', qt), ('chain-far', qt)]
-    with mp.Pool(min(16, os.cpu_count() or 1)) as pool:
-        r1 = pool.map_async(topo_job, jobs, chunksize=1)
-        r2 = pool.map_async(tolerance_job, tjobs, chunksize=1)
-        r3 = pool.map_async(ground_height_job, [(qt,)], chunksize=1)
-        results = r1.get() + r2.get() + r3.get()
+    # every job has a share of one hard wall budget: a job that is still running at the deadline is killed and counted as ONE inconclusive
+    # obligation, never as a pass (a change to the code can turn the linear queries of a job into nonlinear ones that do not finish)
+    budget = 480 if ck.tier == 'quick' else 7200
+    results, killed = [], []
+    pool = mp.Pool(min(16, os.cpu_count() or 1))
+    try:
+        # the cheap, decisive jobs first
+        pend = [('tolerance-%s' % j[0], pool.apply_async(tolerance_job, (j,))) for j in tjobs]
+        pend += [('ground-height', pool.apply_async(ground_height_job, ((qt,),)))]
+        pend += [('topology-%dw-%s-%s-%s' % (j[0], j[1], 'gnd' if j[2] else 'free', j[4]), pool.apply_async(topo_job, (j,))) for j in jobs]
+        deadline = time.time() + budget
+        for nm, ar in pend:
+            try:
+                results.append(ar.get(timeout=max(0.1, deadline - time.time())))
+            except mp.TimeoutError:
+                killed.append(nm)
+    finally:
+        pool.terminate()
+        pool.join()
+    for nm in killed:
+        ck.record('%s/job finished within the wall budget of %d s' % (nm, budget), 'inconclusive', 'killed at the deadline')
     funcs = set()
     for r in results:
         funcs.update(r['functions'])
